@@ -355,8 +355,20 @@ def bytevalue_cases(ni):
             for data in (t, t + nlb, nlb + t, a + nlb + t, t + nlb + a,
                          nlb + t + nlb, t + t, a + nlb + t + t,
                          a + nlb + a + nlb + t, nlb + nlb + t,
-                         a + t + nlb + t + a):
+                         a + t + nlb + t + a,
+                         # runs of one value (sentinel / marker candidates)
+                         t * 3, t * 4, t * 5, t * 8, t * 16,
+                         a + t * 4 + a + nlb, nlb + t * 4 + nlb + t * 8,
+                         a + nlb + t * 4):
                 out.append(data)
+    # other byte patterns an implementation might use as a private marker
+    for m in (b'\x00\x01', b'\xff\xfe\xfd\xfc', b'\xde\xad\xbe\xef',
+              b'\x01\x02\x03\x04', b'\x1e\x1f', b'\xc0\x80', b'\xf5\xff',
+              b'\xef\xbf\xbf', b'\xed\xa0\x80', b'\x00' * 7, b'\xff' * 7,
+              b'\r' * 4, b'<<<>>>', b'\x7f\x7f'):
+        for data in (m, b'a' + m + b'b' + nlb, nlb + m, m + nlb + m,
+                     b'a' + nlb + m + m + nlb):
+            out.append(data)
     return out
 
 
